@@ -246,8 +246,8 @@ func init() {
 	checks["C11"] = func(c *ctx) {
 		o := prog.DefaultOpts()
 		o.PredPct, o.FallbackPct = 60, 50
-		g := genPart(c, "C11", c.pick(90, 3000), 0, o, 1, "ok,pred,fault,predgate", c.pick(6, 12), false,
-			"flow with at least one predicate or fallback; predicate outcomes {true,false,panic} x task outcomes {ok,error,panic}; predgate: a provider of another task input is held until the predicate has been entered")
+		g := genPart(c, "C11", c.pick(90, 3000), 0, o, 1, "ok,pred,fault,predgate,one", c.pick(6, 12), false,
+			"flow with at least one predicate or fallback; predicate outcomes {true,false,panic} x task outcomes {ok,error,panic}; predgate: a provider of another task input is held until the predicate has been entered; one: exactly one function fails, each in turn, by error and by panic")
 		both(c, nil, g)
 	}
 	checks["C12"] = func(c *ctx) {
